@@ -454,6 +454,17 @@ def array_eq(i, fr, st, pc, a, t, fn, r):
 def ord_cmp_int(i, fr, st, pc, a, t, fn, r):
     x, y = i.read_ptr(st, a[0]), i.read_ptr(st, a[1])
     if isinstance(x, W) and isinstance(y, W) and (x.val is None or y.val is None) and not x.signed:
+        if getattr(i, "cmp_split", False):
+            # small-window mode: the three orders as three paths with exact conditions
+            lt, eq = i.binop("Lt", x, y, fr), w_eq(x, y)
+            outs = []
+            for cond, res in (((lt,), -1), ((b_not(lt), eq), 0), ((b_not(lt), b_not(eq)), 1)):
+                if any(isinstance(c, W) and c.val == 0 for c in cond):
+                    continue
+                pc2 = pc + tuple(c for c in cond if not (isinstance(c, W) and c.val == 1))
+                if _feasible(i, pc2):
+                    outs.append(Outcome("return", st.fork(), pc2, ordering(res)))
+            return outs
         # unsigned comparison of symbolic words: the summary "order of these two one-word sequences"
         return _ret(i, st, pc, Opaque("lexcmp", ((x,), (y,))))
     return _ret(i, st, pc, i.binop("Cmp", x, y, fr))
@@ -729,6 +740,8 @@ def call_closure(i, fr, st, pc, clos, args):
 def slice_iter_all(i, fr, st, pc, a, t, fn, r):
     """Iterator::all / any over a slice iterator with a closure: conjunction / disjunction of the
     closure results over every element (closures are pure here)"""
+    if getattr(i, "cmp_split", False):
+        return generic_all_any(i, fr, st, pc, a, t, fn, r)
     is_any = fn["name"] == "any"
     itp, clos = a
     it = i.read_ptr(st, itp) if isinstance(itp, Ptr) else itp
@@ -775,8 +788,10 @@ def vec_retain(i, fr, st, pc, a, t, fn, r):
                 work.append((o.state, o.pc, kept + ([elems[k]] if v.val else []), k + 1))
             else:
                 s2 = o.state.fork()
-                work.append((o.state, o.pc + (v,), kept + [elems[k]], k + 1))
-                work.append((s2, o.pc + (b_not(v),), list(kept), k + 1))
+                if _feasible(i, o.pc + (v,)):
+                    work.append((o.state, o.pc + (v,), kept + [elems[k]], k + 1))
+                if _feasible(i, o.pc + (b_not(v),)):
+                    work.append((s2, o.pc + (b_not(v),), list(kept), k + 1))
         if len(work) + len(done) > i.max_paths:
             raise Undecided("path budget in retain")
     return done
@@ -802,23 +817,124 @@ def _elem_key(i, st, v):
     return None
 
 
+def _local_trait_fn(i, trait, name, adt_path):
+    cands = [b for b, sty, tr in i.facts.trait_impl_methods(trait) if sty.get("path") == adt_path and b["name"] == name]
+    return cands[0] if cands else None
+
+
+def _call_on_refs(i, fr, st, pc, body, vals, t):
+    args = []
+    for v in vals:
+        c = new_cell()
+        st.mem[c] = v
+        args.append(Ptr(c, ()))
+    if body["key"] in i.opaque_fns:
+        return i.opaque_fns[body["key"]](i, fr, args, st, pc, t)
+    return i.call_mir(body, body["mir"], args, st, dict(fr.env), fr.depth + 1, pc)
+
+
+def _order_of(v):
+    """-1/0/1 of a concrete Ordering value, else None"""
+    if isinstance(v, Agg) and v.key == "std::cmp::Ordering":
+        return v.variant - 1
+    return None
+
+
+def _compare(i, fr, st, pc, x, y, t):
+    """outcomes of comparing two elements (or keys) with their own Ord: list of (state, pc, -1/0/1) + other outcomes"""
+    res, other = [], []
+    if isinstance(x, W) and isinstance(y, W):
+        if x.val is not None and y.val is not None:
+            xs, ys = (x.sval(), y.sval()) if x.signed else (x.val, y.val)
+            return [(st, pc, (xs > ys) - (xs < ys))], []
+        if x.signed:
+            raise Undecided("order of symbolic signed keys")
+        lt, eq = i.binop("Lt", x, y, fr), w_eq(x, y)
+        for cond, r_ in (((lt,), -1), ((b_not(lt), eq), 0), ((b_not(lt), b_not(eq)), 1)):
+            if any(isinstance(c, W) and c.val == 0 for c in cond):
+                continue
+            pc2 = pc + tuple(c for c in cond if not (isinstance(c, W) and c.val == 1))
+            if _feasible(i, pc2):
+                res.append((st.fork(), pc2, r_))
+        return res, other
+    if isinstance(x, Agg) and isinstance(y, Agg) and x.key == y.key:
+        body = _local_trait_fn(i, "std::cmp::Ord", "cmp", x.key)
+        if body is None:
+            raise Undecided("no local Ord::cmp for %s" % x.key)
+        for o in _call_on_refs(i, fr, st, pc, body, [x, y], t):
+            k = _order_of(o.value) if o.kind == "return" else None
+            if o.kind != "return":
+                other.append(o)
+            elif k is None:
+                raise Undecided("element comparison returns %r" % (o.value,))
+            else:
+                res.append((o.state, o.pc, k))
+        return res, other
+    raise Undecided("order of %r and %r" % (x, y))
+
+
+def _feasible(i, pc):
+    if not getattr(i, "prune", False):
+        return True
+    return i.feasible(pc)
+
+
+def _sort_semantic(i, fr, st, pc, elems, keyf, t):
+    """stable insertion sort driven by the elements' own comparison (every total-order-respecting sort gives the
+    same result; std's sort is stable).  keyf(state, pc, elem) -> [(state, pc, key)] ; returns (list of
+    (state, pc, ordered elems), other outcomes)"""
+    done, other = [], []
+    # work item: (state, pc, sorted prefix [(key, elem)], next index, insert position being probed, key of the new one)
+    work = [(st, pc, [], 0, None, None)]
+    while work:
+        s, p, pre, k, j, kk = work.pop()
+        if len(work) + len(done) > i.max_paths:
+            raise Undecided("path budget in sort")
+        if k == len(elems):
+            done.append((s, p, [e for _, e in pre]))
+            continue
+        if j is None:
+            for s2, p2, key in keyf(s, p, elems[k]):
+                work.append((s2, p2, pre, k, len(pre), key))
+            continue
+        if j == 0:
+            work.append((s, p, [(kk, elems[k])] + pre, k + 1, None, None))
+            continue
+        res, oth = _compare(i, fr, s, p, kk, pre[j - 1][0], t)
+        other += oth
+        for s2, p2, c in res:
+            if not _feasible(i, p2):
+                continue
+            if c < 0:
+                work.append((s2, p2, pre, k, j - 1, kk))
+            else:
+                work.append((s2, p2, pre[:j] + [(kk, elems[k])] + pre[j:], k + 1, None, None))
+    return done, other
+
+
+def _vec_target(i, st, target):
+    h, is_vec_place = target, False
+    if isinstance(target, Ptr) and target.sl is None:
+        inner = i.read_ptr(st, target)
+        if isinstance(inner, Ptr):
+            h, is_vec_place = inner, True
+    return h, is_vec_place
+
+
 def seq_event(name):
     def f(i, fr, st, pc, a, t, fn, r):
-        """sort(): any total order consistent with equality groups equal elements - modelled as a stable
-        sort by element identity; dedup(): removes adjacent equal elements.  Both are also recorded."""
+        """sort(): with named (opaque) elements any total order consistent with equality groups equal elements -
+        modelled as a stable sort by element identity; with real symbolic elements the elements' own Ord decides
+        (path split).  dedup(): removes adjacent equal elements.  Both are also recorded."""
         i.seq_events = getattr(i, "seq_events", []) + [name]
         target = a[0]
-        is_vec_place = False
-        h = target
-        if isinstance(target, Ptr) and target.sl is None:
-            inner = i.read_ptr(st, target)
-            if isinstance(inner, Ptr):
-                h = inner
-                is_vec_place = True
+        h, is_vec_place = _vec_target(i, st, target)
         elems = list(i.slice_elems(st, h))
         keys = [_elem_key(i, st, e) for e in elems]
+        if getattr(i, "cmp_split", False) and not all(k is not None and k[0] in ("const", "int", "text") for k in keys):
+            keys = [None]   # real symbolic elements: their own Ord / PartialEq decide, not their names
         if any(k is None for k in keys):
-            raise Undecided("%s of elements without identity" % name)
+            return _seq_semantic(i, fr, st, pc, a, t, name, target, h, is_vec_place, elems)
         if name == "sort":
             order = sorted(range(len(elems)), key=lambda j: keys[j])
             new = [elems[j] for j in order]
@@ -831,6 +947,139 @@ def seq_event(name):
                 raise Undecided("dedup on a non-owning view")
         return _ret(i, st, pc, UNIT)
     return f
+
+
+def _seq_semantic(i, fr, st, pc, a, t, name, target, h, is_vec_place, elems):
+    if name == "sort":
+        done, other = _sort_semantic(i, fr, st, pc, elems, lambda s, p, e: [(s, p, e)], t)
+        outs = list(other)
+        for s, p, new in done:
+            i.write_slice(s, h, new)
+            outs.append(Outcome("return", s, p, UNIT))
+        return outs
+    if not is_vec_place:
+        raise Undecided("dedup on a non-owning view")
+    eqb = None
+
+    def same(s, p, x, y):
+        """[(state, pc, bool)]"""
+        if isinstance(x, W) and isinstance(y, W):
+            e = w_eq(x, y)
+        else:
+            body = _local_trait_fn(i, "std::cmp::PartialEq", "eq", x.key) if isinstance(x, Agg) else None
+            if body is None:
+                raise Undecided("dedup of %r" % (x,))
+            res = []
+            for o in _call_on_refs(i, fr, s, p, body, [x, y], t):
+                if o.kind != "return":
+                    raise Undecided("element equality does not return")
+                res += _split_bool(i, o.state, o.pc, o.value)
+            return res
+        return _split_bool(i, s, p, e)
+    return _dedup_with(i, st, pc, target, elems, same)
+
+
+def _split_bool(i, s, p, v):
+    if isinstance(v, W) and v.val is not None:
+        return [(s, p, bool(v.val))]
+    out = []
+    for cond, val in ((v, True), (b_not(v), False)):
+        p2 = p + (cond,)
+        if _feasible(i, p2):
+            out.append((s.fork(), p2, val))
+    return out
+
+
+def _dedup_with(i, st, pc, target, elems, same):
+    """Vec::dedup_by semantics: walk left to right, drop an element when same(elem, last kept) holds"""
+    work = [(st, pc, [], 0)]
+    outs = []
+    while work:
+        s, p, kept, k = work.pop()
+        if len(work) + len(outs) > i.max_paths:
+            raise Undecided("path budget in dedup")
+        if k == len(elems):
+            _vec_set(i, s, target, kept)
+            outs.append(Outcome("return", s, p, UNIT))
+            continue
+        if not kept:
+            work.append((s, p, [elems[k]], k + 1))
+            continue
+        for s2, p2, eq in same(s, p, elems[k], kept[-1]):
+            work.append((s2, p2, list(kept) if eq else kept + [elems[k]], k + 1))
+    return outs
+
+
+def vec_dedup_by(i, fr, st, pc, a, t, fn, r):
+    """dedup_by(|a, b| same): a = the later element, b = the last kept one; removes a when the closure holds"""
+    i.seq_events = getattr(i, "seq_events", []) + ["dedup_by"]
+    target, clos = a
+    h, is_vec_place = _vec_target(i, st, target)
+    if not is_vec_place:
+        raise Undecided("dedup_by on a non-owning view")
+    elems = list(i.slice_elems(st, h))
+
+    def same(s, p, x, y):
+        cx, cy = new_cell(), new_cell()
+        s.mem[cx], s.mem[cy] = x, y
+        res = []
+        for o in call_closure(i, fr, s, p, clos, [Ptr(cx, ()), Ptr(cy, ())]):
+            if o.kind != "return":
+                raise Undecided("dedup_by closure does not return")
+            res += _split_bool(i, o.state, o.pc, o.value)
+        return res
+    return _dedup_with(i, st, pc, target, elems, same)
+
+
+def vec_dedup_by_key(i, fr, st, pc, a, t, fn, r):
+    i.seq_events = getattr(i, "seq_events", []) + ["dedup_by_key"]
+    target, clos = a
+    h, is_vec_place = _vec_target(i, st, target)
+    if not is_vec_place:
+        raise Undecided("dedup_by_key on a non-owning view")
+    elems = list(i.slice_elems(st, h))
+
+    def key(s, p, x):
+        cx = new_cell()
+        s.mem[cx] = x
+        return [(o.state, o.pc, o.value) for o in call_closure(i, fr, s, p, clos, [Ptr(cx, ())]) if o.kind == "return"]
+
+    def same(s, p, x, y):
+        res = []
+        for s1, p1, kx in key(s, p, x):
+            for s2, p2, ky in key(s1, p1, y):
+                if not (isinstance(kx, W) and isinstance(ky, W)):
+                    raise Undecided("dedup_by_key with a non-integer key")
+                res += _split_bool(i, s2, p2, w_eq(kx, ky))
+        return res
+    return _dedup_with(i, st, pc, target, elems, same)
+
+
+def slice_sort_by_key(i, fr, st, pc, a, t, fn, r):
+    """sort_by_key / sort_by_cached_key / sort_unstable_by_key: stable order of the keys (an unstable sort may
+    order equal-key elements differently: then only decided when no two keys can be equal -> Undecided otherwise)"""
+    i.seq_events = getattr(i, "seq_events", []) + ["sort_by_key"]
+    target, clos = a
+    h, _ = _vec_target(i, st, target)
+    elems = list(i.slice_elems(st, h))
+    if "unstable" in fn["name"] and len(elems) > 1:
+        raise Undecided("unstable sort by key")
+
+    def keyf(s, p, e):
+        c = new_cell()
+        s.mem[c] = e
+        res = []
+        for o in call_closure(i, fr, s, p, clos, [Ptr(c, ())]):
+            if o.kind != "return":
+                raise Undecided("key closure does not return")
+            res.append((o.state, o.pc, o.value))
+        return res
+    done, other = _sort_semantic(i, fr, st, pc, elems, keyf, t)
+    outs = list(other)
+    for s, p, new in done:
+        i.write_slice(s, h, new)
+        outs.append(Outcome("return", s, p, UNIT))
+    return outs
 
 
 def slice_first(i, fr, st, pc, a, t, fn, r):
@@ -921,6 +1170,11 @@ TABLE = {
     "std::slice::<impl [T]>::sort": seq_event("sort"),
     "core::slice::<impl [T]>::sort_unstable": seq_event("sort"),
     "std::vec::Vec::<T, A>::dedup": seq_event("dedup"),
+    "std::vec::Vec::<T, A>::dedup_by": vec_dedup_by,
+    "std::vec::Vec::<T, A>::dedup_by_key": vec_dedup_by_key,
+    "std::slice::<impl [T]>::sort_by_key": slice_sort_by_key,
+    "std::slice::<impl [T]>::sort_by_cached_key": slice_sort_by_key,
+    "core::slice::<impl [T]>::sort_unstable_by_key": slice_sort_by_key,
     "<std::slice::Iter<'a, T> as std::iter::Iterator>::all": slice_iter_all,
     "<std::slice::Iter<'a, T> as std::iter::Iterator>::any": slice_iter_all,
     "core::slice::<impl [T]>::first": slice_first,
@@ -2176,8 +2430,10 @@ def generic_all_any(i, fr, st, pc, a, t, fn, r):
                     stop_cond = b_not(v) if not is_any else v
                     if isinstance(src, Ptr):
                         i.write_ptr(s2, src, cur2)
-                    outs.append(Outcome("return", s2, o.pc + (stop_cond,), wbool(is_any)))
-                    work.append((o.state, o.pc + (b_not(stop_cond),), cur2, acc))
+                    if _feasible(i, o.pc + (stop_cond,)):
+                        outs.append(Outcome("return", s2, o.pc + (stop_cond,), wbool(is_any)))
+                    if _feasible(i, o.pc + (b_not(stop_cond),)):
+                        work.append((o.state, o.pc + (b_not(stop_cond),), cur2, acc))
         if len(work) + len(outs) > i.max_paths:
             raise Undecided("path budget in all/any")
     return outs
